@@ -1097,7 +1097,16 @@ fn recv(
 
         match result.cmp(&0) {
             cmp::Ordering::Greater => continue,
-            cmp::Ordering::Equal => return Err(UnixError::ChannelClosed),
+            cmp::Ordering::Equal => {
+                // The dedicated channel was closed with part of the message still missing:
+                // its sender failed or died in the middle of the send. The truncated message
+                // is discarded; that says nothing about the other senders of this channel,
+                // so carry on with whatever comes next instead of reporting disconnection.
+                drop(dedicated_rx);
+                drop(channels);
+                drop(shared_memory_regions);
+                return recv(fd, blocking_mode);
+            },
             cmp::Ordering::Less => return Err(UnixError::last()),
         }
     }
